@@ -263,6 +263,8 @@ class Engine(ExprMixin, CallMixin, StmtMixin):
             return T.sv_bool(TH.distinct_t(self.ev(e.args[0], p).t))
         if fn == "strict":
             return T.sv_bool(TH.strict(self.ev(e.args[0], p).t))
+        if fn == "with_node":
+            return T.scalar(T.TUP, TH.twith(self.ev(e.args[0], p).t, self.ev(e.args[1], p).t))
         if fn == "without":
             return T.scalar(T.TUP, TH.tfilter_ne(self.ev(e.args[0], p).t, self.ev(e.args[1], p).t))
         if fn == "count":
